@@ -405,7 +405,10 @@ class Check:
             for b in self.build_problems:
                 nofail.append({"kind": "build", "broken": b[0], "detail": b[1]})
 
-        os.makedirs(EVIDENCE, exist_ok=True)
+        # runs against a scratch copy (VERIF_REPO, used for seeded-change tests) must not
+        # overwrite the evidence of the real tree
+        evdir = EVIDENCE if os.path.realpath(REPO) == "/repo" else mktmp("evidence")
+        os.makedirs(evdir, exist_ok=True)
         obligations = len(self.theorems)
         discharged = sum(1 for ok, _ in self.theorems.values() if ok)
         cov = {
@@ -437,7 +440,7 @@ class Check:
         ev = {"property_id": self.prop, "tier": self.tier, "seed": self.seed, "level": level,
               "coverage": cov, "assumptions": assumptions or [], "wall_s": round(wall, 2),
               "violations": len(violations) + len(nofail)}
-        with open(os.path.join(EVIDENCE, self.prop + ".json"), "w") as fh:
+        with open(os.path.join(evdir, self.prop + ".json"), "w") as fh:
             json.dump(ev, fh, indent=1, sort_keys=True)
             fh.write("\n")
 
